@@ -95,6 +95,11 @@ class HarnessError(Exception):
     pass
 
 
+class StopRun(Exception):
+    """Raised by an oracle to end the judged part of a run quietly (e.g. the run left
+    the provisos of the property under judgement)."""
+
+
 def pyxab_site(tb):
     """file:function of the innermost PyXAB frame of a traceback (never a line number)."""
     site = None
@@ -687,6 +692,9 @@ class Ctx:
         self.seam = None
         self.expansion_log = []
         self.pull_count = 0
+        self.top = None
+        self.ledger = {}
+        self.credit = {}
 
     # -- logging
     def log(self, *parts):
@@ -811,7 +819,8 @@ class Ctx:
             def __init__(self, *a, **kw):
                 self._sim_id = len(ctx.learners)
                 rec = {"id": self._sim_id, "kw": {k: v for k, v in kw.items() if k in ("nu", "rho", "rounds", "c", "delta", "bound")},
-                       "obj": self, "part": None, "args": a, "round": ctx.round}
+                       "obj": self, "part": None, "args": a, "round": ctx.round, "kind": base.__name__, "top": False,
+                       "rounds": 0, "last_point": None}
                 ctx.learners.append(rec)
                 ctx.spy_log.append(("new", self._sim_id, rec["kw"]))
                 ctx.log("learner-new", self._sim_id, sorted((k, fhex(v)) for k, v in rec["kw"].items()))
@@ -823,15 +832,29 @@ class Ctx:
                 for ps in ctx.parts:
                     if ps.owner is rec:
                         rec["part"] = ps
+                rec["constructed"] = True
 
             def pull(self, time):
+                rec = ctx.learners[self._sim_id]
+                for o in ctx.oracles:
+                    o.ag_before_pull(rec)
                 p = super().pull(time)
                 ctx.spy_log.append(("pull", self._sim_id, p, time))
+                rec["last_point"] = p
+                for o in ctx.oracles:
+                    o.ag_after_pull(rec, p)
                 return p
 
             def receive_reward(self, time, reward):
+                rec = ctx.learners[self._sim_id]
                 ctx.spy_log.append(("rew", self._sim_id, reward, time))
-                return super().receive_reward(time, reward)
+                for o in ctx.oracles:
+                    o.ag_before_reward(rec, reward)
+                r = super().receive_reward(time, reward)
+                rec["rounds"] += 1
+                for o in ctx.oracles:
+                    o.ag_after_reward(rec, reward)
+                return r
         Spy.__name__ = base.__name__
         Spy.__qualname__ = base.__qualname__
         return Spy
@@ -878,6 +901,10 @@ class Oracle:
     def before_query(self, final): pass
     def after_query(self, p, final): pass
     def after_call(self, op): pass
+    def ag_before_pull(self, ag): pass
+    def ag_after_pull(self, ag, p): pass
+    def ag_before_reward(self, ag, r): pass
+    def ag_after_reward(self, ag, r): pass
     def finish(self): pass
     def on_crash(self, op, exc, site): pass
     def on_hang(self, op): pass
@@ -981,9 +1008,7 @@ def run_scenario(sc, oracle_classes, judged=None, want_explicit=True, watchdog=T
                     for o in ctx.oracles:
                         o.on_hang(op)
                     raise Violation("C01", "hang", "step budget exceeded in %s at round %d" % (op, ctx.round), site=op)
-                except Violation:
-                    raise
-                except HarnessError:
+                except (Violation, HarnessError, StopRun):
                     raise
                 except Exception as e:  # crash inside the library
                     site = pyxab_site(e.__traceback__)
@@ -1000,6 +1025,9 @@ def run_scenario(sc, oracle_classes, judged=None, want_explicit=True, watchdog=T
             part = ctx.partition_factory(sc["partition"])
             ctx.algo = call("construct", build_algo, sc, ctx, domain, part)
             ctx.log("construct", sc["algo"], ctx.nnodes)
+            top = {"id": -1, "kw": dict(sc.get("params") or {}), "obj": ctx.algo, "part": ctx.main_part(), "kind": sc["algo"],
+                   "top": True, "rounds": 0, "last_point": None, "constructed": True}
+            ctx.top = top
             for o in ctx.oracles:
                 o.on_constructed()
                 o.after_call("construct")
@@ -1023,21 +1051,27 @@ def run_scenario(sc, oracle_classes, judged=None, want_explicit=True, watchdog=T
                 labels_used.append(t)
                 for o in ctx.oracles:
                     o.before_pull()
+                    o.ag_before_pull(top)
                 p = call("pull", algo.pull, t)
+                top["last_point"] = p
                 ctx.pull_count += 1
                 ctx.log("pull", t, _plist(p))
                 for o in ctx.oracles:
                     o.after_pull(p)
+                    o.ag_after_pull(top, p)
                     o.after_call("pull")
                 r = rf(i, p if isinstance(p, list) else [0.0] * len(domain))
                 rewards_given.append(tag(r))
                 for o in ctx.oracles:
                     o.before_reward(p, r)
+                    o.ag_before_reward(top, r)
                 call("receive_reward", algo.receive_reward, t, r)
                 ctx.completed = i
+                top["rounds"] += 1
                 ctx.log("reward", t, fhex(r))
                 for o in ctx.oracles:
                     o.after_reward(p, r)
+                    o.ag_after_reward(top, r)
                     o.after_call("receive_reward")
                 for _ in range(sched.get(i, 0)):
                     query(False)
@@ -1049,6 +1083,8 @@ def run_scenario(sc, oracle_classes, judged=None, want_explicit=True, watchdog=T
                 o.finish()
         except Violation as v:
             viol = v
+        except StopRun as e:
+            ctx.stats["stopped:" + str(e)] += 1
     finally:
         seam.uninstall()
     res.rounds = ctx.completed
@@ -1056,7 +1092,6 @@ def run_scenario(sc, oracle_classes, judged=None, want_explicit=True, watchdog=T
     res.probes = ctx.probes
     res.fired = seam.fired
     res.fired["rng-calls"] = seam.calls
-    res.stats["rng-sites"] = 0
     res.sites = seam.sites
     res.digest = ctx.digest()
     res.cells = ctx.nnodes
